@@ -729,6 +729,48 @@ def _lexer_hooks(tokens, script, budget):
     return hooks
 
 
+def lexer_literal_values(idx, ns, texts, budget=200):
+    """Run the lexer (engine I, concrete) on each text and return {text: value member after the first token, or ('throws', what) /
+    ('undecided', why)}.  std::strtoul and friends are evaluated for real on the string the lexer collected."""
+    lex_cls = ns + '::Lexer'
+    tokens = idx.enum(ns + '::Token')
+    gnt = idx.func(lex_cls + '::getNextToken')
+    rc = [m for m in idx.record(lex_cls).methods if m.name == 'readChar'][0]
+    out = {}
+    for text in texts:
+        script = _Script([ord(c) for c in text])
+        base_hooks = _lexer_hooks(tokens, script, budget)
+
+        def hooks(I, n, kind, name, did, obj, args, env, base_hooks=base_hooks):
+            if kind == 'function' and name in ('strtoul', 'strtoull', 'strtol', 'stoul', 'stoi') and args:
+                sv = I.expr(args[0], env)
+                radix = I.expr(args[2], env) if len(args) > 2 and args[2].get('kind') != 'CXXDefaultArgExpr' else const(32, True, 10)
+                if not (isinstance(sv, tuple) and sv[0] == 'str' and isinstance(radix, IV) and radix.concrete()):
+                    raise AnalysisBroken('conversion of a non-concrete string at %s' % pos(n))
+                digits = ''
+                for ch in sv[1]:
+                    try:
+                        int(ch, radix.lo if radix.lo else 10)
+                    except ValueError:
+                        break
+                    digits += ch
+                _store_endptr(I, args, env)
+                return const(64, False, int(digits, radix.lo if radix.lo else 10) if digits else 0)
+            return base_hooks(I, n, kind, name, did, obj, args, env)
+        I = ivinterp.Interp(idx, hooks, max_iter=budget)
+        lex = make_lexer(I, idx, ns)
+        try:
+            I.invoke(rc, lex, [])
+            tk = I.invoke(gnt, lex, [])
+            v = lex.fields.get('value')
+            out[text] = (tk.lo if isinstance(tk, IV) and tk.concrete() else None, v.lo if isinstance(v, IV) and v.concrete() else v, list(I.ub))
+        except Thrown as e:
+            out[text] = ('throws', e.what, [])
+        except (NeedSplit, AnalysisBroken) as e:
+            out[text] = ('undecided', str(e), [])
+    return out
+
+
 def handler_sites(idx, func):
     """(catch statement, exception variable, body) of the handlers of `func` that catch the repository's located error type."""
     out = []
